@@ -583,6 +583,9 @@ func matches(kvs []*regattapb.KeyValue, m *model.Map) bool {
 }
 
 // runCrash enumerates every file-system operation boundary of the install as a crash point.
+// crash points >= killBase use the "process dies, operating system survives" fault model at point-killBase
+const killBase = int64(1_000_000)
+
 func runCrash(c Case, o *vt.Obs, snap []byte, installed *model.Map) *vt.Failure {
 	exec := func(point int64) (int64, *vt.Failure) {
 		cfs := crashfs.New(fsmx.DataDir)
@@ -601,7 +604,14 @@ func runCrash(c Case, o *vt.Obs, snap []byte, installed *model.Map) *vt.Failure 
 			durable = recv.m.Index
 		}
 		// prefix states of the receiver's own log
-		cfs.Arm(point)
+		kill := point >= killBase
+		if kill {
+			// second fault model: the process dies at this operation while the operating system survives - everything done so far
+			// stays, nothing further happens
+			cfs.ArmKeep(point - killBase)
+		} else {
+			cfs.Arm(point)
+		}
 		rerr := recv.r.Recover(snap, nil)
 		ops := cfs.Count()
 		if rerr != nil && !cfs.Crashed() {
@@ -642,7 +652,11 @@ func runCrash(c Case, o *vt.Obs, snap []byte, installed *model.Map) *vt.Failure 
 				}
 			}
 		}
-		return ops, vt.Failf(prop+"/crash-in-install/neither-old-nor-new", int(point), "crash at install operation %d: reopened at index %d with a state that is neither the installed snapshot (index %d) nor a prefix >= %d of the receiver's own log", point, idx, installed.Index, durable)
+		model_ := "power loss (unsynced state dropped)"
+		if kill {
+			model_ = "the process dies there, nothing done before is lost"
+		}
+		return ops, vt.Failf(prop+"/crash-in-install/neither-old-nor-new", int(point%killBase), "interruption at install operation %d (%s): reopened at index %d with a state that is neither the installed snapshot (index %d) nor a prefix >= %d of the receiver's own log", point%killBase, model_, idx, installed.Index, durable)
 	}
 	points := c.Points
 	if len(points) == 0 {
@@ -652,6 +666,9 @@ func runCrash(c Case, o *vt.Obs, snap []byte, installed *model.Map) *vt.Failure 
 		}
 		for p := int64(0); p <= total; p++ {
 			points = append(points, p)
+		}
+		for p := int64(0); p <= total; p++ {
+			points = append(points, killBase+p)
 		}
 	}
 	for _, p := range points {
